@@ -98,3 +98,14 @@ Definition odotR (pos : Z -> RV3) (e : elem) (f : face) : R :=
   outward2 ROps (cellpts pos e) (face_pts pos f).
 Definition cell_outward (pos : Z -> RV3) (e : elem) : Prop :=
   forall h, In h (elem_faces e) -> 0 < odotR pos e h.
+
+(* uniform scaling x |-> k x multiplies every element volume by k^3 (used by the
+   length-scale stream of the correspondence check) *)
+Lemma elem_vol24_scale : forall k t (p : list RV3), length p = arity t ->
+  elem_vol24_pts ROps t (map (vscale ROps k) p) = k * k * k * elem_vol24_pts ROps t p.
+Proof.
+  intros k t p H.
+  destruct t; simpl in H;
+    repeat (destruct p as [| [[? ?] ?] p]; simpl in H; try discriminate);
+    cbv [map]; unfold_geom; ring.
+Qed.
